@@ -10,7 +10,10 @@ PROPERTIES_FILE = "Properties_C09.v"
 LEVEL = "proof"
 RULE = ("byte strings of length 0..64 (4096 thorough): random, all-00, all-FF, one non-zero byte at each position, each followed "
         "by its own CRC; error patterns (single, double, burst<=16, random) on 30-byte frames; exhaustive single/double/burst "
-        "classes on N frames run on the C++ alone.  A case is non-trivial if the message is non-empty; distinct by content.")
+        "classes on N frames run on the C++ alone; reused-engine sequences; every register value (2^16 two-byte prefixes); the engine's "
+        "use sites in M17FrameDecoder: LSFs corrupted before encoding (all 240 single-bit, random double-bit, bursts<=16, CRC-field "
+        "errors with zero low/high residue byte) through decode_lsf and through the LICH reassembly must never be reported, the "
+        "valid frame must.  A case is non-trivial if the message is non-empty; distinct by content.")
 ASSUMPTIONS = ["model = hand-written ImplCRC.v; tie = differential run on the cases of this run + regenerated template arguments",
                "CRC engine observed through reset()/operator()/get()/get_bytes() only"]
 
@@ -184,6 +187,15 @@ def run(ctx):
                     ctx.violation("crc-differs-from-m17-spec", "CRC16 result differs from the M17 CRC of the specification",
                                   {"input": "crc " + msg.hex(), "implementation": d[4 * m:4 * m + 4], "specification": "%04x" % R_crc16(msg)})
                     break
+        # the engine's use sites in the frame decoder: the CRC gates of decode_lsf and of the LICH reassembly
+        dexe = ctx.build_cpp("decoder_harness", "decoder.cpp")
+        if dexe:
+            import fdcheck
+            thorough = ctx.tier == "thorough"
+            n = fdcheck.crc_gate_probe(ctx, dexe, ctx.rng.fork("c09-gate"), n_double=4000 if thorough else 600,
+                                       n_burst=4000 if thorough else 600, n_lich=300 if thorough else 60)
+            ctx.coverage["decoder_gate_frames"] = n
+            ctx.evaluations += n
         # exhaustive classes on the C++ alone
         r = ctx.rng.fork("c09-classes")
         nframes = 8 if ctx.tier == "thorough" else 1
